@@ -1,6 +1,6 @@
 /- Helper lemmas for C02: Python slice arithmetic, index maps of slicing and of axis
    permutation, the voxel → world map under both. -/
-import NipyVerif.Model.C02
+import NipyVerif.Model.C02B
 import Mathlib.Tactic.Ring
 import Mathlib.Tactic.Linarith
 import Mathlib.Tactic.Push
@@ -12,6 +12,8 @@ import Mathlib.Algebra.Order.Field.Rat
 import Mathlib.Data.Rat.Cast.Defs
 
 namespace NipyVerif.C02
+
+variable {α : Type}
 
 /-- `j` is an index of an array of shape `shape` -/
 def ValidIdx (shape j : List Nat) : Prop := List.Forall₂ (fun i n => i < n) j shape
@@ -462,19 +464,19 @@ theorem lin_reindex (f : Nat → Nat) : ∀ (cols : List Vec) (j : List Nat) (r 
 /-! ## "derived from": every value of `h` sits where it sat in `g` -/
 
 /-- the named world coordinates of voxel `idx` -/
-def namedWorld (g : Img) (idx : List Nat) : List (String × Rat) :=
+def namedWorld (g : ImgOf α) (idx : List Nat) : List (String × Rat) :=
   (List.range g.outNames.length).map (fun r => (g.outNames.getD r "", g.world idx r))
 
 def relName (ρ : String → String) (p : String × Rat) : String × Rat := (ρ p.1, p.2)
 
 /-- shape, axis names and affine columns agree in number -/
-def WF (g : Img) : Prop := g.inNames.length = g.shape.length ∧ g.cols.length = g.shape.length
+def WF (g : ImgOf α) : Prop := g.inNames.length = g.shape.length ∧ g.cols.length = g.shape.length
 
 /-- `h` is derived from `g`: there is an injective map `σ` from the indices of `h` to the
     indices of `g` and a renaming `ρ` of the reference coordinates such that every voxel of `h`
     carries the value and — up to the order in which the named coordinates are listed and up to
     the renaming — the named world coordinates of voxel `σ j` of `g`. -/
-def Embeds (g h : Img) : Prop :=
+def Embeds (g h : ImgOf α) : Prop :=
   ∃ (σ : List Nat → List Nat) (ρ : String → String),
     h.outNames.Perm (g.outNames.map ρ) ∧
     (∀ j, ValidIdx h.shape j →
@@ -484,10 +486,10 @@ def Embeds (g h : Img) : Prop :=
 
 theorem relName_id : relName id = id := by funext p; simp [relName]
 
-theorem Embeds.refl (g : Img) : Embeds g g :=
+theorem Embeds.refl (g : ImgOf α) : Embeds g g :=
   ⟨id, id, by simp, fun j hj => ⟨hj, rfl, by simp [relName_id]⟩, fun _ _ _ _ h => h⟩
 
-theorem Embeds.trans {g h k : Img} (h1 : Embeds g h) (h2 : Embeds h k) : Embeds g k := by
+theorem Embeds.trans {g h k : ImgOf α} (h1 : Embeds g h) (h2 : Embeds h k) : Embeds g k := by
   obtain ⟨σ1, ρ1, n1, v1, i1⟩ := h1
   obtain ⟨σ2, ρ2, n2, v2, i2⟩ := h2
   refine ⟨σ1 ∘ σ2, ρ2 ∘ ρ1, ?_, ?_, ?_⟩
@@ -509,7 +511,7 @@ theorem Embeds.trans {g h k : Img} (h1 : Embeds g h) (h2 : Embeds h k) : Embeds 
     exact i2 j j' hj hj' (i1 _ _ a2 a2' he)
 
 /-- index maps that keep reference names and world coordinates -/
-theorem Embeds.of_index {g h : Img} (σ : List Nat → List Nat) (hn : h.outNames = g.outNames)
+theorem Embeds.of_index {g h : ImgOf α} (σ : List Nat → List Nat) (hn : h.outNames = g.outNames)
     (hv : ∀ j, ValidIdx h.shape j →
       ValidIdx g.shape (σ j) ∧ h.data j = g.data (σ j) ∧ ∀ r, h.world j r = g.world (σ j) r)
     (hi : ∀ j j', ValidIdx h.shape j → ValidIdx h.shape j' → σ j = σ j' → j = j') :
@@ -527,18 +529,18 @@ theorem Embeds.of_index {g h : Img} (σ : List Nat → List Nat) (hn : h.outName
 
 /-- `h` reads `g` through the index map `σ`: same reference names, and voxel `j` of `h` has the
     value and exactly the world coordinates of voxel `σ j` of `g`; `σ` is injective. -/
-def IndexEmbeds (g h : Img) (σ : List Nat → List Nat) : Prop :=
+def IndexEmbeds (g h : ImgOf α) (σ : List Nat → List Nat) : Prop :=
   h.outNames = g.outNames ∧
   (∀ j, ValidIdx h.shape j →
     ValidIdx g.shape (σ j) ∧ h.data j = g.data (σ j) ∧ ∀ r, h.world j r = g.world (σ j) r) ∧
   (∀ j j', ValidIdx h.shape j → ValidIdx h.shape j' → σ j = σ j' → j = j')
 
-theorem IndexEmbeds.embeds {g h : Img} {σ : List Nat → List Nat} (hi : IndexEmbeds g h σ) : Embeds g h :=
+theorem IndexEmbeds.embeds {g h : ImgOf α} {σ : List Nat → List Nat} (hi : IndexEmbeds g h σ) : Embeds g h :=
   Embeds.of_index σ hi.1 hi.2.1 hi.2.2
 
 /-! ### slicing -/
 
-theorem getitem_index (g h : Img) (sl : List Slicer) (hw : WF g)
+theorem getitem_index (g h : ImgOf α) (sl : List Slicer) (hw : WF g)
     (hres : getitem g sl = .ok (.img h)) :
     (∃ sels, (∃ ex, expand g.shape.length sl = .ok ex ∧ normAll g.shape ex = .ok sels) ∧
       IndexEmbeds g h (selIdx sels)) ∧ WF h := by
@@ -558,7 +560,7 @@ theorem getitem_index (g h : Img) (sl : List Slicer) (hw : WF g)
       · refine ⟨sels, ⟨ex, rfl, hN⟩, rfl, ?_, ?_⟩
         · intro j hj
           refine ⟨selIdx_valid g.shape sels j hval hj, rfl, fun r => ?_⟩
-          simp only [Img.world]
+          simp only [ImgOf.world]
           rw [lin_sel g.shape sels g.cols j r hval hj]
           ring
         · intro j j' hj hj' he
@@ -566,12 +568,12 @@ theorem getitem_index (g h : Img) (sl : List Slicer) (hw : WF g)
       · exact ⟨selShape_names_length sels g.inNames (by rw [hw.1, hsl]),
           selCols_length sels g.cols (by rw [hw.2, hsl])⟩
 
-theorem getitem_img (g h : Img) (sl : List Slicer) (hw : WF g)
+theorem getitem_img (g h : ImgOf α) (sl : List Slicer) (hw : WF g)
     (hres : getitem g sl = .ok (.img h)) : Embeds g h ∧ WF h := by
   obtain ⟨⟨_, _, hi⟩, w⟩ := getitem_index g h sl hw hres
   exact ⟨hi.embeds, w⟩
 
-theorem getitem_val (g : Img) (v : Int) (sl : List Slicer)
+theorem getitem_val (g : ImgOf α) (v : α) (sl : List Slicer)
     (hres : getitem g sl = .ok (.val v)) : ∃ idx, ValidIdx g.shape idx ∧ v = g.data idx := by
   unfold getitem at hres
   cases hE : expand g.shape.length sl with
@@ -615,7 +617,7 @@ theorem resolveOrder_isPerm (n nrev : Nat) (names : List String) (ord : Order) (
         split_ifs at h with h1
         cases h; exact h1
 
-theorem reorderAxesP_index (g : Img) (o : List Nat) (hw : WF g)
+theorem reorderAxesP_index (g : ImgOf α) (o : List Nat) (hw : WF g)
     (hp : isPerm g.shape.length o = true) :
     IndexEmbeds g (reorderAxesP g o) (unperm o) ∧ WF (reorderAxesP g o) := by
   have hl := ((isPerm_iff _ o).mp hp).1
@@ -626,7 +628,7 @@ theorem reorderAxesP_index (g : Img) (o : List Nat) (hw : WF g)
         have := ((validIdx_iff _ _).mp hj).1
         simpa [reorderAxesP, permute_length, hl] using this
       refine ⟨unperm_valid _ o g.shape j hp rfl hj, rfl, fun r => ?_⟩
-      simp only [Img.world, reorderAxesP]
+      simp only [ImgOf.world, reorderAxesP]
       rw [lin_permute _ o g.cols j r hp hw.2 hjl]
     · intro j j' hj hj' he
       have hjl : j.length = g.shape.length := by
@@ -638,7 +640,7 @@ theorem reorderAxesP_index (g : Img) (o : List Nat) (hw : WF g)
       exact unperm_inj _ o j j' hp hjl hjl' he
   · simp [WF, reorderAxesP, permute_length]
 
-theorem reorderAxesP_embeds (g : Img) (o : List Nat) (hw : WF g)
+theorem reorderAxesP_embeds (g : ImgOf α) (o : List Nat) (hw : WF g)
     (hp : isPerm g.shape.length o = true) : Embeds g (reorderAxesP g o) ∧ WF (reorderAxesP g o) :=
   ⟨(reorderAxesP_index g o hw hp).1.embeds, (reorderAxesP_index g o hw hp).2⟩
 
@@ -660,7 +662,7 @@ theorem unperm_surj (n : Nat) (o shape i : List Nat) (h : isPerm n o = true) (hs
         permute_getD 0 o i _ (by have := isPerm_idxOf_lt h hk; omega), isPerm_getD_idxOf h hk,
         getD_lt i k 0 h2]
 
-theorem reorderRefP_embeds (g : Img) (o : List Nat) (hw : WF g)
+theorem reorderRefP_embeds (g : ImgOf α) (o : List Nat) (hw : WF g)
     (hp : isPerm g.outNames.length o = true) : Embeds g (reorderRefP g o) ∧ WF (reorderRefP g o) := by
   have hl := ((isPerm_iff _ o).mp hp).1
   have hperm := isPerm_perm hp
@@ -677,7 +679,7 @@ theorem reorderRefP_embeds (g : Img) (o : List Nat) (hw : WF g)
     · rw [relName_id, List.map_id]
       have hw' : ∀ r, (reorderRefP g o).world j r = g.world j (o.getD r 0) := by
         intro r
-        simp only [Img.world, reorderRefP]
+        simp only [ImgOf.world, reorderRefP]
         rw [lin_reindex (fun r => o.getD r 0) g.cols j r]
       unfold namedWorld
       have hlen : (reorderRefP g o).outNames.length = g.outNames.length := by
@@ -699,7 +701,7 @@ theorem reorderRefP_embeds (g : Img) (o : List Nat) (hw : WF g)
       exact hperm.map _
   · exact ⟨hw.1, by simpa [reorderRefP] using hw.2⟩
 
-theorem reorderAxes_embeds (g h : Img) (ord : Order) (hw : WF g)
+theorem reorderAxes_embeds (g h : ImgOf α) (ord : Order) (hw : WF g)
     (hres : reorderAxes g ord = .ok h) : Embeds g h ∧ WF h := by
   unfold reorderAxes at hres
   cases hr : resolveOrder g.shape.length g.shape.length g.inNames ord with
@@ -709,7 +711,7 @@ theorem reorderAxes_embeds (g h : Img) (ord : Order) (hw : WF g)
     cases hres
     exact reorderAxesP_embeds g o hw (resolveOrder_isPerm _ _ _ _ _ hr)
 
-theorem reorderRef_embeds (g h : Img) (ord : Order) (hw : WF g)
+theorem reorderRef_embeds (g h : ImgOf α) (ord : Order) (hw : WF g)
     (hres : reorderRef g ord = .ok h) : Embeds g h ∧ WF h := by
   unfold reorderRef at hres
   cases hr : resolveOrder g.outNames.length g.shape.length g.outNames ord with
@@ -727,7 +729,7 @@ theorem rename_length (pairs : List (String × String)) (names nn : List String)
   split_ifs at h <;> cases h
   rfl
 
-theorem renameAxes_embeds (g h : Img) (p : List (String × String)) (hw : WF g)
+theorem renameAxes_embeds (g h : ImgOf α) (p : List (String × String)) (hw : WF g)
     (hres : renameAxes g p = .ok h) : Embeds g h ∧ WF h := by
   unfold renameAxes at hres
   cases hr : rename p g.inNames with
@@ -740,7 +742,7 @@ theorem renameAxes_embeds (g h : Img) (p : List (String × String)) (hw : WF g)
     · exact Embeds.of_index id rfl (fun j hj => ⟨hj, rfl, fun _ => rfl⟩) (fun _ _ _ _ h => h)
     · exact ⟨by simp [hn, hw.1], hw.2⟩
 
-theorem renameRef_embeds (g h : Img) (p : List (String × String)) (hw : WF g)
+theorem renameRef_embeds (g h : ImgOf α) (p : List (String × String)) (hw : WF g)
     (hres : renameRef g p = .ok h) : Embeds g h ∧ WF h := by
   unfold renameRef at hres
   cases hr : rename p g.outNames with
@@ -757,12 +759,12 @@ theorem renameRef_embeds (g h : Img) (p : List (String × String)) (hw : WF g)
       apply List.map_congr_left
       intro r hr
       have hr' : r < g.outNames.length := List.mem_range.mp hr
-      simp [relName, Img.world, List.getD_eq_getElem?_getD, List.getElem?_eq_getElem hr']
+      simp [relName, ImgOf.world, List.getD_eq_getElem?_getD, List.getElem?_eq_getElem hr']
     · exact hw
 
 /-! ### operations built from the primitives -/
 
-theorem reorderBoth_embeds (g h : Img) (o : List Nat) (hw : WF g)
+theorem reorderBoth_embeds (g h : ImgOf α) (o : List Nat) (hw : WF g)
     (hres : reorderBoth g o = .ok h) : Embeds g h ∧ WF h := by
   unfold reorderBoth at hres
   cases h1 : reorderAxes g (.nats o) with
@@ -773,7 +775,7 @@ theorem reorderBoth_embeds (g h : Img) (o : List Nat) (hw : WF g)
     obtain ⟨e2, w2⟩ := reorderRef_embeds k h _ w1 hres
     exact ⟨e1.trans e2, w2⟩
 
-theorem rollimg_embeds (g h : Img) (a s : AxId) (o : List (Option Nat)) (hw : WF g)
+theorem rollimg_embeds (g h : ImgOf α) (a s : AxId) (o : List (Option Nat)) (hw : WF g)
     (hres : rollimg g a s o = .ok h) : Embeds g h ∧ WF h := by
   unfold rollimg at hres
   cases h1 : inputAxisIndex g.inNames g.outNames o a with
@@ -785,7 +787,7 @@ theorem rollimg_embeds (g h : Img) (a s : AxId) (o : List (Option Nat)) (hw : WF
       simp only [h1, h2] at hres
       split_ifs at hres <;> first | exact reorderAxes_embeds g h _ hw hres | cases hres
 
-theorem rollaxis_embeds (g h : Img) (a : AxId) (inv : Bool) (hw : WF g)
+theorem rollaxis_embeds (g h : ImgOf α) (a : AxId) (inv : Bool) (hw : WF g)
     (hres : rollaxis g a inv = .ok h) : Embeds g h ∧ WF h := by
   unfold rollaxis at hres
   cases inv with
@@ -803,7 +805,7 @@ theorem rollaxis_embeds (g h : Img) (a : AxId) (inv : Bool) (hw : WF g)
       simp only [h1] at hres
       exact reorderBoth_embeds g h _ hw hres
 
-theorem syncOrder_embeds (g h : Img) (ti tu : List String) (ax rf : Bool) (hw : WF g)
+theorem syncOrder_embeds (g h : ImgOf α) (ti tu : List String) (ax rf : Bool) (hw : WF g)
     (hres : syncOrder g ti tu ax rf = .ok h) : Embeds g h ∧ WF h := by
   unfold syncOrder at hres
   cases ax with
@@ -832,10 +834,10 @@ theorem syncOrder_embeds (g h : Img) (ti tu : List String) (ax rf : Bool) (hw : 
       simp only [Bool.false_eq_true, if_false] at hres
       cases hres; exact ⟨Embeds.refl g, hw⟩
 
-theorem asXyz_embeds (g h : Img) (m : List (String × Nat)) (o0 o1 o2 : List (Option Nat)) (hw : WF g)
-    (hres : asXyz g m o0 o1 o2 = .ok h) : Embeds g h ∧ WF h := by
+theorem asXyz_embeds (g h : ImgOf α) (m : List (String × Nat)) (orient : ImgOf α → Nat → List (Option Nat))
+    (hw : WF g) (hres : asXyz g m orient = .ok h) : Embeds g h ∧ WF h := by
   unfold asXyz at hres
-  cases h0 : xyzAffineErr g m o0 with
+  cases h0 : xyzAffineErr g m (orient g 0) with
   | none => simp only [h0] at hres; cases hres; exact ⟨Embeds.refl g, hw⟩
   | some e0 =>
     simp only [h0] at hres
@@ -850,28 +852,28 @@ theorem asXyz_embeds (g h : Img) (m : List (String × Nat)) (o0 o1 o2 : List (Op
         obtain ⟨e1, w1⟩ := reorderRef_embeds g k _ hw h2
         split_ifs at hres with h3
         revert hres
-        generalize hks : (argsort (o1.map (fun o => match o with
+        generalize hks : (argsort ((orient k 1).map (fun o => match o with
             | some k => k
-            | none => o1.length + g.outNames.length + 8))) = ks
+            | none => (orient k 1).length + g.outNames.length + 8))) = ks
         intro hres
         cases h4 : reorderAxes k (.nats ks) with
         | error e => simp [h4] at hres
         | ok k2 =>
           simp only [h4] at hres
           obtain ⟨e2, w2⟩ := reorderAxes_embeds k k2 _ w1 h4
-          cases h5 : xyzAffineErr k2 m o2 with
+          cases h5 : xyzAffineErr k2 m (orient k2 2) with
           | none => simp only [h5] at hres; cases hres; exact ⟨e1.trans e2, w2⟩
           | some e => simp [h5] at hres
 
-theorem liftImg_img (x : Except Err Img) (h : Img) (hres : liftImg x = .ok (.img h)) : x = .ok h := by
+theorem liftImg_img (x : Except Err (ImgOf α)) (h : ImgOf α) (hres : liftImg x = .ok (.img h)) : x = .ok h := by
   cases x with
   | error e => simp [liftImg] at hres
   | ok g => simp only [liftImg] at hres; cases hres; rfl
 
-theorem liftImg_val (x : Except Err Img) (v : Int) : liftImg x ≠ .ok (.val v) := by
+theorem liftImg_val (x : Except Err (ImgOf α)) (v : α) : liftImg x ≠ .ok (.val v) := by
   cases x <;> simp [liftImg]
 
-theorem iterAxis_img (g h : Img) (a : AxId) (k : Nat) (o : List (Option Nat)) (hw : WF g)
+theorem iterAxis_img (g h : ImgOf α) (a : AxId) (k : Nat) (o : List (Option Nat)) (hw : WF g)
     (hres : iterAxis g a k o = .ok (.img h)) : Embeds g h ∧ WF h := by
   unfold iterAxis at hres
   cases h1 : rollimg g a (.int 0) o with
@@ -882,7 +884,7 @@ theorem iterAxis_img (g h : Img) (a : AxId) (k : Nat) (o : List (Option Nat)) (h
     obtain ⟨e2, w2⟩ := getitem_img r h _ w1 hres
     exact ⟨e1.trans e2, w2⟩
 
-theorem iterAxis_val (g : Img) (v : Int) (a : AxId) (k : Nat) (o : List (Option Nat)) (hw : WF g)
+theorem iterAxis_val (g : ImgOf α) (v : α) (a : AxId) (k : Nat) (o : List (Option Nat)) (hw : WF g)
     (hres : iterAxis g a k o = .ok (.val v)) : ∃ idx, ValidIdx g.shape idx ∧ v = g.data idx := by
   unfold iterAxis at hres
   cases h1 : rollimg g a (.int 0) o with
@@ -894,7 +896,7 @@ theorem iterAxis_val (g : Img) (v : Int) (a : AxId) (k : Nat) (o : List (Option 
     obtain ⟨a1, b1, _⟩ := hv idx hi
     exact ⟨σ idx, a1, by rw [hd, b1]⟩
 
-theorem step_img (g h : Img) (op : Op) (hw : WF g) (hres : step g op = .ok (.img h)) :
+theorem step_img (g h : ImgOf α) (op : Op) (hw : WF g) (hres : step g op = .ok (.img h)) :
     Embeds g h ∧ WF h := by
   cases op with
   | getitem sl => exact getitem_img g h sl hw hres
@@ -902,17 +904,17 @@ theorem step_img (g h : Img) (op : Op) (hw : WF g) (hres : step g op = .ok (.img
   | reorderRef o => exact reorderRef_embeds g h o hw (liftImg_img _ _ hres)
   | renameAxes p => exact renameAxes_embeds g h p hw (liftImg_img _ _ hres)
   | renameRef p => exact renameRef_embeds g h p hw (liftImg_img _ _ hres)
-  | rollimg a s o => exact rollimg_embeds g h a s o hw (liftImg_img _ _ hres)
+  | rollimg a s o => exact rollimg_embeds g h a s _ hw (liftImg_img _ _ hres)
   | rollaxis a i => exact rollaxis_embeds g h a i hw (liftImg_img _ _ hres)
   | sync ti tu a r => exact syncOrder_embeds g h ti tu a r hw (liftImg_img _ _ hres)
-  | iterAxis a k o => exact iterAxis_img g h a k o hw hres
-  | asXyz m o0 o1 o2 => exact asXyz_embeds g h m o0 o1 o2 hw (liftImg_img _ _ hres)
+  | iterAxis a k o arr => exact iterAxis_img g h a k _ hw hres
+  | asXyz m src => exact asXyz_embeds g h m _ hw (liftImg_img _ _ hres)
 
-theorem step_val (g : Img) (v : Int) (op : Op) (hw : WF g) (hres : step g op = .ok (.val v)) :
+theorem step_val (g : ImgOf α) (v : α) (op : Op) (hw : WF g) (hres : step g op = .ok (.val v)) :
     ∃ idx, ValidIdx g.shape idx ∧ v = g.data idx := by
   cases op with
   | getitem sl => exact getitem_val g v sl hres
-  | iterAxis a k o => exact iterAxis_val g v a k o hw hres
+  | iterAxis a k o arr => exact iterAxis_val g v a k _ hw hres
   | reorderAxes o => exact absurd hres (liftImg_val _ v)
   | reorderRef o => exact absurd hres (liftImg_val _ v)
   | renameAxes p => exact absurd hres (liftImg_val _ v)
@@ -920,9 +922,9 @@ theorem step_val (g : Img) (v : Int) (op : Op) (hw : WF g) (hres : step g op = .
   | rollimg a s o => exact absurd hres (liftImg_val _ v)
   | rollaxis a i => exact absurd hres (liftImg_val _ v)
   | sync ti tu a r => exact absurd hres (liftImg_val _ v)
-  | asXyz m o0 o1 o2 => exact absurd hres (liftImg_val _ v)
+  | asXyz m src => exact absurd hres (liftImg_val _ v)
 
-theorem runOps_img : ∀ (ops : List Op) (g h : Img), WF g → runOps g ops = .ok (.img h) →
+theorem runOps_img : ∀ (ops : List Op) (g h : ImgOf α), WF g → runOps g ops = .ok (.img h) →
     Embeds g h ∧ WF h
   | [], g, h, hw, hres => by
       simp only [runOps] at hres; cases hres; exact ⟨Embeds.refl g, hw⟩
@@ -941,7 +943,7 @@ theorem runOps_img : ∀ (ops : List Op) (g h : Img), WF g → runOps g ops = .o
           obtain ⟨e2, w2⟩ := runOps_img ops k h w1 hres
           exact ⟨e1.trans e2, w2⟩
 
-theorem runOps_val : ∀ (ops : List Op) (g : Img) (v : Int), WF g → runOps g ops = .ok (.val v) →
+theorem runOps_val : ∀ (ops : List Op) (g : ImgOf α) (v : α), WF g → runOps g ops = .ok (.val v) →
     ∃ idx, ValidIdx g.shape idx ∧ v = g.data idx
   | [], g, v, hw, hres => by simp [runOps] at hres
   | op :: ops, g, v, hw, hres => by
